@@ -130,7 +130,7 @@ pub fn sem16(args: &[String]) -> i32 {
                     Ok(v) => v,
                     Err(e) => {
                         fails.push(json!({"h": hi, "s": s, "var": "utf16", "what": panic_msg(e)}));
-                        per_start.push(json!("panic"));
+                        per_start.push(json!([[[-9, -9]]]));
                         continue;
                     }
                 };
